@@ -16,6 +16,9 @@ import (
 func TestMC_Debug(t *testing.T) {
 	only := os.Getenv("MC_ONLY")
 	cfgs, _ := lifeSchedConfigs("DBG", lifecycleCheck)
+	if os.Getenv("MC_DEBUG_SET") == "C01" {
+		cfgs, _ = inSchedConfigs()
+	}
 	for _, c := range cfgs {
 		if only == "" || !strings.Contains(c.Name, only) {
 			continue
